@@ -2,6 +2,7 @@ import UrcuVerif.Src.FutexGp
 import UrcuVerif.Src.FutexCallRcu
 import UrcuVerif.Src.FutexWq
 import UrcuVerif.Src.FutexDefer
+import UrcuVerif.Src.FutexWaitNode
 /-!
 # Source refinement, futex wait / wake handshakes: final statements
 
@@ -19,6 +20,8 @@ environment satisfying the stated binding of the pointer parameter: `exec` retur
 waiters unconditionally, for the wakers that test the result of FUTEX_WAKE under `WakeRetOk` – and, when the events satisfy
 the system-call contract `evOk` (`errno ∈ {EAGAIN, EINTR}` after a failed FUTEX_WAIT – otherwise the source calls
 `urcu_die()` –, `membarrier()` returns 0, the futex word holds an integer), `WaiterRefines` / `WakerRefines` holds.
+`wait_defer` and the wait-node functions (section 3) have their own abstractions (`absEvD`; state-dependent `absEvL`,
+`absEvB`); the wait-node theorems are in partial-correctness form (about every run that returns `.ok`).
 -/
 set_option maxRecDepth 8192
 namespace UrcuVerif.Props.SrcFutex
@@ -103,23 +106,99 @@ theorem wake_call_rcu_thread_refines (fuel : Nat) (env : Env) (inp : List Val) (
   obtain ⟨out, h, h1, h2⟩ := src_wake_call_rcu_thread fuel env inp C n hc hf hr
   exact ⟨out, h, fun hn => (h1 hn).refines _ _ _ Cr.simK, h2⟩
 
-/-- `call_rcu_completion_wait(completion)` / `call_rcu_completion_wake_up(completion)` (the futex of `rcu_barrier()`):
-same text on `&completion->futex`.  Stated against the generic automata; in `CallRcu/Barrier.lean` the labels
-`bWaitLd / bWaitFx o / bSpurious` and `mLdFut / mStFut / mWake` are the generic labels one for one (as `Cr.gw2l`,
-`Cr.gk2l`); the projection lemmas for that model are not part of this file. -/
-theorem call_rcu_completion_wait_refines (fuel : Nat) (env : Env) (inp : List Val) (C : Loc)
+/-- `call_rcu_completion_wait(completion)` (the futex of `rcu_barrier()`) ⊑ caller `t` of `CallRcu/Barrier.lean` waiting
+for completion `b`, from L2 pc `waitLd b` (back to `dec b` when it returns) -/
+theorem call_rcu_completion_wait_refines (b : Nat) (fuel : Nat) (env : Env) (inp : List Val) (C : Loc)
     (hc : env.vars "completion" = some (.ptr C)) :
     ∃ out, exec fuel Gen.Src.«call_rcu_completion_wait» env inp = .ok out ∧
-      WaiterRefines (.field C "futex") (-1) "futex_async" (gwstep (-1)) id (fun l => [l]) env out := by
+      WaiterRefines (.field C "futex") (-1) "futex_async" Br.lstep (Br.pcMap b) Br.gw2l env out := by
   obtain ⟨out, h, hp⟩ := src_call_rcu_completion_wait fuel env inp C hc
-  exact ⟨out, h, hp.refines _ _ _ (fun g l g' hg => by simp [runA, hg])⟩
+  exact ⟨out, h, hp.refines _ _ _ (Br.sim b)⟩
 
+/-- `call_rcu_completion_wake_up(completion)` ⊑ the marker callback on helper `h` of `CallRcu/Barrier.lean`, from L2 pc
+`ldFut` to `put` -/
 theorem call_rcu_completion_wake_up_refines (fuel : Nat) (env : Env) (inp : List Val) (C : Loc)
     (hc : env.vars "completion" = some (.ptr C)) (hr : WakeRetOk inp) :
     ∃ out, exec fuel Gen.Src.«call_rcu_completion_wake_up» env inp = .ok out ∧
-      WakerRefines (.field C "futex") "futex_async" gkstep id (fun l => [l]) env out := by
+      WakerRefines (.field C "futex") "futex_async" Br.kstep Br.kMap Br.gk2l env out := by
   obtain ⟨out, h, hp⟩ := src_call_rcu_completion_wake_up fuel env inp C hc hr
-  exact ⟨out, h, hp.refines _ _ _ (fun s l s' hs => by simp [runA, hs])⟩
+  exact ⟨out, h, hp.refines _ _ _ Br.simK⟩
+
+/-! ## 3. wait nodes (`src/urcu-wait.h`) against `Handshake/WaitNode.lean`
+
+Partial-correctness form: about every run of `exec` that returns `.ok` (`exec` fails when a value loaded from the state
+word, on which the source computes `&`, is not a non-negative integer, or the result of FUTEX_WAKE is not an integer).
+Contracts: `noAbort` (no `abort()`: the `urcu_posix_assert`s hold; no `urcu_die()`), for the waiter `okB` (`noAbort`,
+`errno ∈ {EAGAIN, EINTR}`, state word integer).  State-dependent abstractions `absEvL` (leader) / `absEvB` (waiter), see
+the header of `Src/FutexWaitNode.lean`. -/
+
+/-- `urcu_adaptative_wake_up(wait)` ⊑ the leader of `Handshake/WaitNode.lean`, from `l0` to `ldone` -/
+theorem urcu_adaptative_wake_up_refines (fuel : Nat) (env : Env) (inp : List Val) (W : Loc)
+    (hw : env.vars "wait" = some (.ptr W)) :
+    ∀ out, exec fuel Gen.Src.«urcu_adaptative_wake_up» env inp = .ok out →
+      (∀ l, l ≠ .field W "state" → out.env.priv l = env.priv l) ∧
+      (out.ctl = .normal ∨ out.ctl = .blocked) ∧
+      (out.events.all noAbort = true →
+        ∃ labs pc', labelsS (absEvL (.field W "state")) Wn.kstep .l0 out.events = some labs ∧
+          runA Wn.kstep .l0 labs = some pc' ∧ (out.ctl = .normal → pc' = .ldone)) := by
+  intro out h
+  obtain ⟨h1, h2, h3⟩ := src_adaptative_wake_up fuel env inp W hw out h
+  refine ⟨h1, h2, fun hok => ?_⟩
+  obtain ⟨pc', ha, hp⟩ := h3 hok
+  obtain ⟨labs, hl, hr⟩ := acceptS_labels _ _ _ _ _ ha
+  exact ⟨labs, pc', hl, hr, hp⟩
+
+/-- `urcu_adaptative_busy_wait(wait)` ⊑ the waiter of `Handshake/WaitNode.lean`, from `spin` to `returned`: spin phase,
+futex loop, `or RUNNING`, the two TEARDOWN phases, final assertion; `fuel` = a loop budget ran out -/
+theorem urcu_adaptative_busy_wait_refines (fuel : Nat) (env : Env) (inp : List Val) (W : Loc)
+    (hw : env.vars "wait" = some (.ptr W)) :
+    ∀ out, exec fuel Gen.Src.«urcu_adaptative_busy_wait» env inp = .ok out →
+      out.env.priv = env.priv ∧
+      (out.ctl = .normal ∨ out.ctl = .blocked ∨ out.ctl = .fuel) ∧
+      (out.events.all (okB (.field W "state")) = true →
+        ∃ labs pc', labelsS (absEvB (.field W "state")) Wn.lstep .spin out.events = some labs ∧
+          runA Wn.lstep .spin labs = some pc' ∧ (out.ctl = .normal → pc' = .returned)) := by
+  intro out h
+  obtain ⟨h1, h2, h3⟩ := src_adaptative_busy_wait fuel env inp W hw out h
+  refine ⟨h1, h2, fun hok => ?_⟩
+  obtain ⟨pc', ha, hp⟩ := h3 hok
+  obtain ⟨labs, hl, hr⟩ := acceptS_labels _ _ _ _ _ ha
+  exact ⟨labs, pc', hl, hr, hp⟩
+
+/-- `urcu_wait_add(queue, node)` = `return cds_wfs_push(&queue->stack, &node->node)`: no label of the wait-node model;
+its events are exactly those of `_cds_wfs_push` with these arguments (`o`), the result is forwarded -/
+theorem urcu_wait_add_refines (fuel : Nat) (env : Env) (inp : List Val) (Q N : Loc)
+    (hq : env.vars "queue" = some (.ptr Q)) (hn : env.vars "node" = some (.ptr N)) (o : Out)
+    (ho : exec fuel Gen.Src.«_cds_wfs_push» (waitAddEnv env Q N) inp = .ok o) :
+    (∀ v, o.ctl = .ret (some v) →
+      ∃ out, exec fuel Gen.Src.«urcu_wait_add» env inp = .ok out ∧ out.events = o.events ∧ out.inp = o.inp ∧
+        out.ctl = .ret (some v) ∧ out.env.priv = o.env.priv) ∧
+    (o.ctl = .blocked ∨ o.ctl = .fuel →
+      ∃ out, exec fuel Gen.Src.«urcu_wait_add» env inp = .ok out ∧ out.events = o.events ∧ out.inp = o.inp ∧
+        out.ctl = o.ctl ∧ out.env.priv = o.env.priv) := src_wait_add fuel env inp Q N hq hn o ho
+
+/-- `urcu_wake_all_waiters(waiters)`, ONE iteration of its loop with current node `N` (`wakeAllBody` = the body of the
+translated loop, `_t1` = its iteration variable): the events are those of the call `_cds_wfs_next_blocking(N)` (`oN`, the
+stack traversal, kept opaque) followed by `rest` = a run of the leader of node `N`: the pre-check load of `N->state`
+(silent), then nothing (`continue`: RUNNING set, the leader stays at `l0`) or the whole `urcu_adaptative_wake_up(N)`
+(`l0 → ldone`).  That every queued node is visited exactly once is the stack traversal's property, not stated here. -/
+theorem urcu_wake_all_waiters_iteration_refines (fuel : Nat) (env : Env) (inp : List Val) (N : Loc)
+    (h1 : env.vars "_t1" = some (.ptr N)) :
+    ∀ out, exec fuel wakeAllBody env inp = .ok out →
+      ∃ oN rest, exec fuel wakeAllNext (env.setVar "iter" (.ptr N)) inp = .ok oN ∧ out.events = oN.events ++ rest ∧
+        (rest.all noAbort = true →
+          ∃ labs pc', labelsS (absEvL (.field N "state")) Wn.kstep .l0 rest = some labs ∧
+            runA Wn.kstep .l0 labs = some pc' ∧
+            (out.ctl = .normal → pc' = .ldone) ∧ (out.ctl = .cont → pc' = .l0)) := by
+  intro out h
+  obtain ⟨oN, hN, rest, he, hr⟩ := src_wake_all_iteration fuel env inp N h1 out h
+  refine ⟨oN, rest, hN, he, fun hok => ?_⟩
+  obtain ⟨pc', ha, hp⟩ := hr hok
+  obtain ⟨labs, hl, hrun⟩ := acceptS_labels _ _ _ _ _ ha
+  exact ⟨labs, pc', hl, hrun, hp⟩
+
+/-- `wakeAllBody` / `wakeAllNext` are parts of the generated value, not copies -/
+example : ∃ a b : Stmt, Gen.Src.«urcu_wake_all_waiters» = .seq a (.seq b (.loop wakeAllBody)) := ⟨_, _, rfl⟩
 
 /-! ## 4. defer thread futex -/
 
@@ -274,6 +353,46 @@ theorem df_waker_proj_frame (c : DeferWake.Cfg) (s s' : DeferWake.State) (i : Na
     (st : DeferWake.step c s l = some s') (ho : Df.ownerK l ≠ some i) : Df.projK s' i = Df.projK s i :=
   Df.projK_frame c s s' i l st ho
 
+theorem wn_waiter_proj_step (s s' : WaitNode.State) (l : Wn.WLabel) (st : WaitNode.step s l.toL2 = some s') :
+    Wn.lstep s.wpc l = some s'.wpc ∧ Wn.GuardW s l := Wn.projW_step s s' l st
+theorem wn_waiter_proj_enabled (s : WaitNode.State) (l : Wn.WLabel) (pc' : WaitNode.WPc)
+    (hl : Wn.lstep s.wpc l = some pc') (hg : Wn.GuardW s l) :
+    ∃ s', WaitNode.step s l.toL2 = some s' ∧ s'.wpc = pc' := Wn.projW_enabled s l pc' hl hg
+theorem wn_waiter_proj_frame (s s' : WaitNode.State) (l : WaitNode.Label) (st : WaitNode.step s l = some s')
+    (ho : Wn.ownedW l = false) (hw : l ≠ .lWake) : s'.wpc = s.wpc := Wn.projW_frame s s' l st ho hw
+theorem wn_waiter_env_wake (s s' : WaitNode.State) (st : WaitNode.step s .lWake = some s') :
+    s'.wpc = Wn.wakeEffect s.wpc ∧ (s.wpc = .sleep → Wn.lstep s.wpc .woken = some s'.wpc) :=
+  Wn.projW_env_wake s s' st
+theorem wn_leader_proj_step (s s' : WaitNode.State) (l : Wn.KLabel) (st : WaitNode.step s l.toL2 = some s')
+    (ho : Wn.ObsK s l) : Wn.kstep s.lpc l = some s'.lpc := Wn.projK_step s s' l st ho
+theorem wn_leader_proj_enabled (s : WaitNode.State) (l : Wn.KLabel) (pc' : WaitNode.LPc)
+    (hl : Wn.kstep s.lpc l = some pc') (hg : Wn.GuardK s l) :
+    ∃ s', WaitNode.step s l.toL2 = some s' ∧ s'.lpc = pc' ∧ Wn.ObsK s l := Wn.projK_enabled s l pc' hl hg
+theorem wn_leader_proj_frame (s s' : WaitNode.State) (l : WaitNode.Label) (st : WaitNode.step s l = some s')
+    (ho : Wn.ownedK l = false) : s'.lpc = s.lpc := Wn.projK_frame s s' l st ho
+
+theorem br_waiter_proj_step (c : CallRcu.Cfg) (s s' : CallRcu.BState) (t : Nat) (l : Br.WLabel)
+    (st : CallRcu.bstep c s (l.toL2 t) = some s') (ho : Br.ObsW s t l) :
+    Br.lstep (s.bpc t) l = some (s'.bpc t) := Br.projW_step c s s' t l st ho
+theorem br_waiter_proj_enabled (c : CallRcu.Cfg) (s : CallRcu.BState) (t : Nat) (l : Br.WLabel) (pc' : CallRcu.BPc)
+    (hl : Br.lstep (s.bpc t) l = some pc') (hg : Br.GuardW s t l) :
+    ∃ s', CallRcu.bstep c s (l.toL2 t) = some s' ∧ s'.bpc t = pc' := Br.projW_enabled c s t l pc' hl hg
+theorem br_waiter_proj_frame (c : CallRcu.Cfg) (s s' : CallRcu.BState) (t : Nat) (l : CallRcu.BLabel)
+    (st : CallRcu.bstep c s l = some s') (ho : Br.ownerW l ≠ some t) (hw : ∀ h, l ≠ .mWake h) :
+    s'.bpc t = s.bpc t := Br.projW_frame c s s' t l st ho hw
+theorem br_waiter_env_wake (c : CallRcu.Cfg) (s s' : CallRcu.BState) (h t : Nat)
+    (st : CallRcu.bstep c s (.mWake h) = some s') :
+    s'.bpc t = s.bpc t ∨ Br.lstep (s.bpc t) .woken = some (s'.bpc t) := Br.projW_env_wake c s s' h t st
+theorem br_waker_proj_step (c : CallRcu.Cfg) (s s' : CallRcu.BState) (h : Nat) (l : Br.KLabel)
+    (st : CallRcu.bstep c s (l.toL2 h) = some s') (ho : Br.ObsK s h l) :
+    Br.kstep (s.mpc h) l = some (s'.mpc h) := Br.projK_step c s s' h l st ho
+theorem br_waker_proj_enabled (c : CallRcu.Cfg) (s : CallRcu.BState) (h : Nat) (l : Br.KLabel) (pc' : CallRcu.MPc)
+    (hl : Br.kstep (s.mpc h) l = some pc') (hg : Br.GuardK s h l) :
+    ∃ s', CallRcu.bstep c s (l.toL2 h) = some s' ∧ s'.mpc h = pc' := Br.projK_enabled c s h l pc' hl hg
+theorem br_waker_proj_frame (c : CallRcu.Cfg) (s s' : CallRcu.BState) (h : Nat) (l : CallRcu.BLabel)
+    (st : CallRcu.bstep c s l = some s') (ho : Br.ownerK l ≠ some h) : s'.mpc h = s.mpc h :=
+  Br.projK_frame c s s' h l st ho
+
 /-! ## non-vacuity: concrete runs (oracle, events, generic labels, L2-local labels, final pcs) -/
 
 /-- mb `wait_gp()`: unlock; load -1; FUTEX_WAIT returns 0 (woken); load 0; lock: 6 events, the call completes -/
@@ -373,6 +492,62 @@ example : (exec 2 Gen.Src.«wait_defer» Env.empty [.int (-1), .int 0, .int 3]).
       (fun o => (o.events.length, o.ctl, labelsOf absEvD o.events)) =
     some (6, .normal, some [.l .dDec, .scan true, .l (.dScanEnd true), .l .dStore0]) := by decide
 example := wait_defer_refines {n := 1} rfl true 2 Env.empty [.int (-1), .int 0, .int 0, .int (-1), .int 0, .int 0]
+
+/-- wait nodes.  Leader: assertion load (WAITING), store WAKEUP, load (RUNNING clear), FUTEX_WAKE, `or TEARDOWN` -/
+def envWait : Env := { vars := fun x => if x = "wait" then some (.ptr (.obj 9)) else none, priv := fun _ => none }
+example : (exec 0 Gen.Src.«urcu_adaptative_wake_up» envWait [.int 0, .int 1, .int 1, .int 1]).toOption.map
+      (fun o => (o.events.length, o.ctl, labelsS (absEvL (.field (.obj 9) "state")) Wn.kstep .l0 o.events)) =
+    some (5, .normal, some [.lStore, .lLoad false, .lWake, .lTeardown]) := by decide
+example : runA Wn.kstep .l0 [.lStore, .lLoad false, .lWake, .lTeardown] = some .ldone := by decide
+/-- the waiter already runs (RUNNING set): no FUTEX_WAKE -/
+example : (exec 0 Gen.Src.«urcu_adaptative_wake_up» envWait [.int 0, .int 3, .int 3]).toOption.map
+      (fun o => (o.events.length, o.ctl, labelsS (absEvL (.field (.obj 9) "state")) Wn.kstep .l0 o.events)) =
+    some (4, .normal, some [.lStore, .lLoad true, .lSkipWake, .lTeardown]) := by decide
+/-- a failed assertion (`abort`) violates the contract -/
+example : (exec 0 Gen.Src.«urcu_adaptative_wake_up» envWait [.int 1, .int 0]).toOption.map
+    (fun o => o.events.all noAbort) = some false := by decide
+example := urcu_adaptative_wake_up_refines 0 envWait [.int 0, .int 1, .int 1, .int 1] (.obj 9) rfl
+/-- waiter, woken while spinning: sees WAITING, then WAKEUP; `or RUNNING`; TEARDOWN not yet, then set; the call returns -/
+example : (exec 3 Gen.Src.«urcu_adaptative_busy_wait» envWait
+        [.int 0, .int 1, .int 1, .int 3, .int 7, .int 7, .int 7]).toOption.map
+      (fun o => (o.events.length, o.ctl, labelsS (absEvB (.field (.obj 9) "state")) Wn.lstep .spin o.events)) =
+    some (10, .normal, some [.wSeeWaiting, .wSeeWoken, .wOrRunning, .wSeeTeardown]) := by decide
+example : runA Wn.lstep .spin [.wSeeWaiting, .wSeeWoken, .wOrRunning, .wSeeTeardown] = some .returned := by decide
+example := urcu_adaptative_busy_wait_refines 3 envWait [.int 0, .int 1, .int 1, .int 3, .int 7, .int 7, .int 7] (.obj 9) rfl
+/-- the futex loop and what follows (the suffix `bwT2` of the function, entered after 1000 spins): FUTEX_WAIT sleeps and
+is woken, EINTR, then EAGAIN; `or RUNNING`; TEARDOWN seen at the second look -/
+def envWait0 : Env :=
+  { vars := fun x => if x = "wait" then some (.ptr (.obj 9)) else if x = "_goto_skip_futex_wait" then some (.int 0) else none,
+    priv := fun _ => none }
+example : (exec 3 bwT2 envWait0
+        [.int 0, .int 0, .int 0, .int (-1), .int 4, .int 0, .int (-1), .int 11, .int 1, .int 3, .int 7, .int 7,
+         .int 7]).toOption.map
+      (fun o => (o.ctl, labelsS (absEvB (.field (.obj 9) "state")) Wn.lstep .spin o.events)) =
+    some (.normal, some [.wSeeWaiting, .wSleep, .woken, .wSeeWaiting, .wSeeWaiting, .wEagain, .wOrRunning,
+      .wSeeTeardown]) := by decide
+
+/-- one iteration of `urcu_wake_all_waiters` on node 9 (last node: `next` = END): 1 event of the traversal, then the
+pre-check load and the leader's run -/
+def envIt : Env := { vars := fun x => if x = "_t1" then some (.ptr (.obj 9)) else none, priv := fun _ => none }
+example : (exec 2 wakeAllBody envIt [.int 1, .int 0, .int 0, .int 1, .int 1, .int 1]).toOption.map
+      (fun o => (o.events.length, o.ctl,
+        labelsS (absEvL (.field (.obj 9) "state")) Wn.kstep .l0 (o.events.drop 1))) =
+    some (7, .normal, some [.lStore, .lLoad false, .lWake, .lTeardown]) := by decide
+example : (exec 2 wakeAllBody envIt [.int 1, .int 2]).toOption.map (fun o => (o.events.length, o.ctl)) =
+    some (2, .cont) := by decide
+example := urcu_wake_all_waiters_iteration_refines 2 envIt [.int 1, .int 0, .int 0, .int 1, .int 1, .int 1] (.obj 9) rfl
+
+/-- completion futex of `rcu_barrier()`: the caller sleeps and is woken; the marker callback wakes it -/
+def envCompl : Env := { vars := fun x => if x = "completion" then some (.ptr (.obj 4)) else none, priv := fun _ => none }
+example : (exec 2 Gen.Src.«call_rcu_completion_wait» envCompl [.int (-1), .int 0, .int 0]).toOption.map
+      (fun o => (o.events.length, o.ctl,
+        (labelsOf (absEvW (.field (.obj 4) "futex") (-1) "futex_async") o.events).map (·.flatMap Br.gw2l))) =
+    some (4, .normal, some [.bWaitLd (-1), .bWaitFx .sleep, .woken, .bWaitLd 0]) := by decide
+example : runA Br.lstep (.waitLd 5) [.bWaitLd (-1), .bWaitFx .sleep, .woken, .bWaitLd 0] = some (.dec 5) := by decide
+example := call_rcu_completion_wait_refines 5 2 envCompl [.int (-1), .int 0, .int 0] (.obj 4) rfl
+example := call_rcu_completion_wake_up_refines 0 envCompl [.int (-1), .int 1] (.obj 4) rfl
+  (by intro v r rest h; cases h; exact ⟨1, by decide, rfl⟩)
+example : runA Br.kstep .ldFut ([GKLabel.k1 (-1), .k2Wake, .k3].flatMap Br.gk2l) = some .put := by decide
 
 /-- the projection lemmas are not vacuous: real L2 steps of the waiter of `Handshake/Tso.lean` up to its sleep, and the
 wake-up by waker 0 -/
